@@ -331,6 +331,12 @@ int sim_timerfd_settime(int fd, int flags, const struct itimerspec *nv, struct i
 // ---------------------------------------------------------------- files
 // A small in-memory file system. `files` is what system calls see; `dur` is what would survive a loss of power:
 // data reaches it only through fsync, names through creation, rename and unlink (which are atomic and ordered).
+// relative names are resolved against the working directory of the simulated process (daemon() without nochdir moves it to "/")
+static std::string fs_abs(const char *p) {
+	if (!p || p[0] == '/' || p[0] == '\0') return p ? p : "";   // (an abstract socket name starts with a NUL byte and is no file name)
+	std::string n = p; while (n.compare(0, 2, "./") == 0) n = n.substr(2);
+	return g_kernel.cwd == "/" ? "/" + n : g_kernel.cwd + "/" + n;
+}
 static bool fs_fault(const char *op, long &result) {
 	g_kernel.fs_calls++;
 	if (g_kernel.fs_fault_at == g_kernel.fs_calls) {
@@ -360,6 +366,8 @@ static long file_write(KFd &k, const void *buf, size_t n) {
 	auto it = g_kernel.files.find(k.path);
 	if (it == g_kernel.files.end()) { errno = EIO; return -1; }     // unlinked underneath: keep it simple
 	std::string &data = it->second;
+	// "cap": every write of the run is accepted only up to that many bytes (a nearly full disk, a quota, a network file system): several short writes per update
+	if (g_kernel.fs_fault_kind == "cap" && g_kernel.fs_fault_arg > 0 && (long)n > g_kernel.fs_fault_arg) { n = (size_t)g_kernel.fs_fault_arg; g_kernel.fs_fault_fired = true; }
 	if (fs_fault("write", forced)) {
 		if (g_kernel.fs_fault_kind == "short") {
 			long a = g_kernel.fs_fault_arg;                       // >0: that many bytes; -1: all but one; -2: half
@@ -382,6 +390,7 @@ static long file_write(KFd &k, const void *buf, size_t n) {
 
 int sim_open(const char *path, int flags, ...) {
 	SYSCALL("open"); { int fe_ = g_hooks ? g_hooks->syscall_fault("open") : 0; if (fe_) { errno = fe_; return -1; } }
+	std::string abs_ = fs_abs(path); path = abs_.c_str();
 	auto it = g_kernel.files.find(path);
 	bool created = false;
 	if (it == g_kernel.files.end()) {
@@ -455,6 +464,7 @@ int sim_munmap(void *p, size_t len) { SYSCALL("munmap"); (void)len; if (g_arena.
 
 char *sim_realpath(const char *path, char *resolved) {
 	SYSCALL("realpath");
+	std::string abs_ = fs_abs(path); path = abs_.c_str();
 	if (!g_kernel.files.count(path)) { errno = ENOENT; return nullptr; }
 	if (resolved) { strcpy(resolved, path); return resolved; }
 	char *r = (char *)g_arena.alloc(strlen(path) + 1, false);
@@ -465,6 +475,7 @@ char *sim_realpath(const char *path, char *resolved) {
 
 int sim_unlink(const char *path) {
 	SYSCALL("unlink");
+	std::string abs_ = fs_abs(path); path = abs_.c_str();
 	if (!g_kernel.files.count(path)) { errno = ENOENT; return -1; }   // also the daemon's unlink of its (abstract) socket name
 	long f = 0;
 	if (fs_fault("unlink", f) && f < 0) { log_file("unlink", -1); return -1; }
@@ -475,6 +486,7 @@ int sim_unlink(const char *path) {
 
 int sim_rename(const char *a, const char *b) {
 	SYSCALL("rename");
+	std::string absa_ = fs_abs(a), absb_ = fs_abs(b); a = absa_.c_str(); b = absb_.c_str();
 	auto it = g_kernel.files.find(a);
 	if (it == g_kernel.files.end()) { errno = ENOENT; return -1; }
 	long f = 0;
@@ -566,7 +578,7 @@ void sim_freeaddrinfo(struct addrinfo *ai) { SYSCALL("freeaddrinfo"); if (ai) g_
 struct passwd *sim_getpwnam(const char *name) { SYSCALL("getpwnam"); static struct passwd pw; static char nm[] = "cjet"; (void)name; pw.pw_name = nm; pw.pw_uid = 1000; pw.pw_gid = 1000; return &pw; }
 int sim_setuid(uid_t u) { SYSCALL("setuid"); (void)u; return 0; }
 int sim_setgid(gid_t g) { SYSCALL("setgid"); (void)g; return 0; }
-int sim_daemon(int a, int b) { SYSCALL("daemon"); (void)a; (void)b; return 0; }
+int sim_daemon(int a, int b) { SYSCALL("daemon"); (void)b; if (a == 0) g_kernel.cwd = "/"; return 0; }
 
 int sim_clock_gettime(clockid_t id, struct timespec *ts) { SYSCALL("clock_gettime"); (void)id; uint64_t n = world_vnow(); ts->tv_sec = (time_t)(n / 1000000000ULL) + 1000; ts->tv_nsec = (long)(n % 1000000000ULL); return 0; }
 
